@@ -39,12 +39,14 @@ type unitStats struct {
 	Cases, Checks, DirectChecks, ItemsMatched, ExpectedStarts, MissingStarts int
 	ErrorsChecked, NodesChecked, MidCharSkipped, ColUndefinedSkipped         int
 	CasesWithLexError, CasesWithNodes, EmptyASTs, OrphanComments, NonTrivial int
+	ModelMismatches                                                          int
 	CasesWithBOM                                                             int
 }
 
 func runUnits(in *bufio.Scanner, out *bufio.Writer, noRef bool) error {
 	enc := json.NewEncoder(out)
 	var st unitStats
+	modelExample := ""
 	idx := -1
 	for in.Scan() {
 		idx++
@@ -319,14 +321,22 @@ func runUnits(in *bufio.Scanner, out *bufio.Writer, noRef bool) error {
 			}
 			// does the real token cover what the spec says the unit's token covers?  (only for
 			// units that cannot fuse with what follows)
-			if u.name != "id" && u.name != "kwmsg" {
+			// (a model check, so only meaningful while the real positions of this case agree with
+			// the spec: a defect that shifts offsets also confuses RawText and the comment test)
+			if u.name != "id" && u.name != "kwmsg" && len(lineMiss)+len(colMiss) == 0 {
 				wantLen := c.Bnd[u.k+u.toklen][0] - c.Bnd[u.k][0]
 				if len(info.RawText()) != wantLen {
-					return fmt.Errorf("unit model wrong: unit %s in %q lexed as %q", u.name, data, info.RawText())
+					st.ModelMismatches++
+					if modelExample == "" {
+						modelExample = fmt.Sprintf("unit %s in %q (bom=%d) lexed as %q", u.name, data, c.Bom, info.RawText())
+					}
 				}
 				_, cmt := f.GetItem(it)
 				if cmt.IsValid() != u.isComment && f.ItemInfo(it) != nil {
-					return fmt.Errorf("unit model wrong: unit %s in %q comment=%v", u.name, data, cmt.IsValid())
+					st.ModelMismatches++
+					if modelExample == "" {
+						modelExample = fmt.Sprintf("unit %s in %q (bom=%d) comment=%v", u.name, data, c.Bom, cmt.IsValid())
+					}
 				}
 			}
 		}
@@ -359,6 +369,9 @@ func runUnits(in *bufio.Scanner, out *bufio.Writer, noRef bool) error {
 	}
 	out.Flush()
 	b, _ := json.Marshal(st)
+	if modelExample != "" {
+		fmt.Fprintf(os.Stderr, "MODEL-MISMATCH %s\n", modelExample)
+	}
 	fmt.Fprintf(os.Stderr, "STATS %s\n", b)
 	return in.Err()
 }
